@@ -222,7 +222,7 @@ def concrete_sequences(E, cfg):
     mode = E.choice('mode', ['ROUND_HALF_EVEN', 'ROUND_HALF_UP', 'ROUND_FLOOR'])
     C.set_default_mode(mode)
     case = E.choice('case', ['same-list-changed', 'same-list-extended', 'quantized-ratios-pieces', 'quantized-ratios-yen',
-                             'quantized-ratios-bytes'])
+                             'quantized-ratios-bytes', 'money-ratios-two-currencies'])
     recv = E.choice('recv', ['money', 'dv', 'mass'])
     cls, unit, quantum = _receiver(E, recv)
     amounts = {'money': ['12.70', '100', '0.07'], 'dv': ['10', '0.125'], 'mass': ['10', '1/7']}[recv]
@@ -243,6 +243,20 @@ def concrete_sequences(E, cfg):
         _obligations(E, q, before, [Fraction(k) for k in key], portions, rem, quantum, True, mode, cls, unit, info + ['second'])
         portions, rem = q.allocate(tuple(key), False)
         _obligations(E, q, before, [Fraction(k) for k in key], portions, rem, quantum, False, mode, cls, unit, info + ['tuple'])
+        return
+    if case == 'money-ratios-two-currencies':
+        # ratios in two currencies, made comparable by a registered money converter (1 EUR = 1.25 USD)
+        from quantity.money import MoneyConverter
+        eur, usd = Money.register_currency('EUR'), Money.register_currency('USD')
+        conv = MoneyConverter(eur)
+        conv.update(None, [(usd, Decimal('1.25'), 1)])
+        vecs = [[('10.01', 'EUR'), ('5', 'USD')], [('5', 'USD'), ('10.01', 'EUR')], [('1', 'EUR'), ('1', 'USD'), ('2.50', 'EUR')]]
+        vec = E.choice('ratios', vecs)
+        in_eur = [Fraction(v) if c == 'EUR' else Fraction(v) / Fraction('1.25') for v, c in vec]
+        with conv:
+            for disperse in (True, False):
+                portions, rem = q.allocate([Money(Decimal(v), eur if c == 'EUR' else usd) for v, c in vec], disperse)
+                _obligations(E, q, before, in_eur, portions, rem, quantum, disperse, mode, cls, unit, info + [vec, disperse])
         return
     if case == 'quantized-ratios-pieces':
         P = C.mk_cls('Pieces', ref_unit_symbol='pcs', quantum=1)
